@@ -17,7 +17,8 @@ RULE = ("Hypothesis-generated process chains of depth 1..12 built by the harness
         "empty), a renamed leaf that performs the wrapped exec, and lists of 1..50 names with duplicates and empty items "
         "containing a chain name at any position, only the leaf's own name, near misses, or nothing. Oracle: the harness reads "
         "the ACTUAL ancestor names up to pid 1 from /proc in the leaf; drop <=> some proper ancestor's name is listed; an "
-        "unreadable tree (empty-named ancestor) must pass unless a listed ancestor sits below it. non-trivial = match at depth "
+        "unreadable tree (empty-named ancestor; or, in a traced run, the open/read of an ancestor's /proc/<pid>/stat failing by injection) "
+        "must pass unless a listed ancestor sits below it. non-trivial = match at depth "
         ">= 2, or self-only match, or a name with ')'/'('/space, or a prefix/extension near miss; distinct by (depth, match "
         "position, name class)")
 
@@ -112,6 +113,61 @@ def classify(c):
     return key, cls
 
 
+def unreadable_tree_phase(ctx):
+    """'passes ... whenever the process tree cannot be read': the call is traced, the open/read of an ancestor's /proc/<pid>/stat is
+    failed (strace injection), and although a listed ancestor exists the call must be logged."""
+    import trace
+    b = ctx.run.build("ts-plain")
+    os_ = trace.OneShot(ctx.run, b, "unreadable")
+    out = os_.out
+    # in oneshot mode the parent of the calling process is the tracer itself
+    ini = gen.render_ini([(b"output", b"file:" + out.encode() + b"/log"), (b"message_format", b"R"), (b"filter_chain", b"exclude_spawns_of:strace,execdrv")])
+    ops = [drv.op("x", out + "/log"), drv.op("C", ini), drv.op_exec("e", b"/bin/x", [b"x"], [], ret=-1, err=2)]
+    os_.write_scenario(ops)
+    rc, events = os_.run_traced([], timeout=30)
+    calls, _ = os_.parse_log()
+
+    def logged():
+        try:
+            return open(out + "/log", "rb").read() == b"R\n"
+        except FileNotFoundError:
+            return False
+    ctx.count(("unreadable", "dry"), ["traced-dry-run"], sample={"chain": "exclude_spawns_of:strace,execdrv", "fault": None})
+    if rc != 0 or logged():
+        ctx.inconclusive.append("traced dry run: listed ancestor 'strace' did not drop the call (rc=%s)" % rc)
+        return
+    stat_calls = [c for c in calls if c["phase"] == 1 and c["name"] in ("openat", "read", "newfstatat", "fstat") and
+                  ("/stat\"" in c["text"] or c["name"] != "openat")]
+    opens = [c for c in calls if c["phase"] == 1 and c["name"] == "openat" and "/stat\"" in c["text"]]
+    plans = []
+    for c in opens[:4]:
+        for e in ("EACCES", "ENOENT", "EMFILE"):
+            plans.append((c, "openat:error=%s:when=%d" % (e, c["ordinal"])))
+    # the read of the first stat file coming back empty / failing
+    if opens:
+        first_open_idx = calls.index(opens[0])
+        for c in calls[first_open_idx:first_open_idx + 6]:
+            if c["name"] == "read":
+                plans.append((c, "read:error=EIO:when=%d" % c["ordinal"]))
+                plans.append((c, "read:retval=0:when=%d" % c["ordinal"]))
+                break
+    for c, inj in plans:
+        try:
+            os.unlink(out + "/log")
+        except FileNotFoundError:
+            pass
+        rc, events = os_.run_traced(["-e", "inject=" + inj], timeout=30)
+        ctx.count(("unreadable", inj), ["unreadable-tree-injection"], sample={"chain": "exclude_spawns_of:strace,execdrv", "fault": inj, "call": c["text"][:90]})
+        T = [e for e in events if e.code == "T"]
+        if rc != 0 or not T:
+            ctx.violation({"unreadable": inj}, {"rc": rc}, None, "call crashed when the process tree could not be read (%s)" % inj)
+            return
+        if not logged():
+            ctx.violation({"unreadable": inj}, {"logged": False}, {"logged": True},
+                          "exclude_spawns_of dropped the call although the process tree could not be read (%s on %s)" % (inj, c["text"][:80]))
+            return
+
+
 def main():
     ctx = Ctx(PID, "exploration", RULE)
     b = ctx.run.build("ts-asan")
@@ -120,6 +176,8 @@ def main():
                        "an ancestor with an empty kernel name counts as 'tree cannot be read' from that point upwards"]
     nw, per = (4, 300) if ctx.quick else (16, 2500)
     pbt.run(ctx, {"ts-asan": b}, strategy, evaluate, classify, nw, per)
+    if not ctx.replay:
+        unreadable_tree_phase(ctx)
     ctx.finish()
 
 
